@@ -1189,6 +1189,75 @@ fn main() {
             println!("len_failed={}", fs.failures() > 0);
             println!("writer_new={}", if r.is_ok() { "Ok" } else { "Err" });
         }
+        // log_write_faults : for k = 1..10 the k-th write call on the log file fails once without writing anything. Mode A: the same
+        // writer keeps appending; mode B: the writer is dropped after the failure and a reopened writer appends the rest. Records
+        // cross two block boundaries. Every record whose append returned Ok must be read back, in order.
+        "log_write_faults" => {
+            // a few large records, then many small ones (fragments end at every distance from the following block boundaries)
+            let mut sizes: Vec<usize> = vec![500, 500, 31000, 700, 600, 40000, 300, 20];
+            for i in 0..40000usize {
+                sizes.push((i * 7) % 13 + 1);
+            }
+            let (mut lost, mut first, mut runs) = (0usize, String::new(), 0usize);
+            for mode in ["same-writer", "reopened-writer"] {
+                for k in [1usize, 2, 3, 4, 5, 6, 7, 8, 9, 10, 500, 2001] {
+                    runs += 1;
+                    let fs = rdbv::faultfs::FaultFs::new();
+                    let afs: std::sync::Arc<dyn raindb::fs::FileSystem> = std::sync::Arc::new(fs.clone());
+                    let path = std::path::PathBuf::from("wal-1.log");
+                    let mut w = v::VLogWriter::new(std::sync::Arc::clone(&afs), &path, false).unwrap();
+                    fs.arm("wal-1.log", k, false);
+                    let mut acked: Vec<(usize, u8)> = vec![];
+                    let mut reopened = false;
+                    for (i, sz) in sizes.iter().enumerate() {
+                        let rec = vec![(i % 251) as u8; *sz];
+                        let before = fs.failures();
+                        if w.append(&rec).is_ok() {
+                            acked.push((*sz, (i % 251) as u8));
+                        }
+                        if mode == "reopened-writer" && fs.failures() > before && !reopened {
+                            reopened = true;
+                            drop(w);
+                            w = v::VLogWriter::new(std::sync::Arc::clone(&afs), &path, true).unwrap();
+                        }
+                    }
+                    drop(w);
+                    fs.disarm();
+                    let mut got: Vec<(usize, u8)> = vec![];
+                    if let Ok(mut r) = v::VLogReader::new(std::sync::Arc::clone(&afs), &path) {
+                        loop {
+                            match r.read_record() {
+                                Ok((rec, eof)) => {
+                                    if eof {
+                                        break;
+                                    }
+                                    got.push((rec.len(), if rec.is_empty() || !rec.iter().all(|b| *b == rec[0]) { 255 } else { rec[0] }));
+                                }
+                                Err(_) => break,
+                            }
+                        }
+                    }
+                    // every acknowledged record must appear, in order (records that were not acknowledged may or may not)
+                    let mut gi = 0;
+                    for (ai, a) in acked.iter().enumerate() {
+                        while gi < got.len() && got[gi] != *a {
+                            gi += 1;
+                        }
+                        if gi == got.len() {
+                            lost += 1;
+                            if first.is_empty() {
+                                first = format!("{}, failing write {}: acknowledged record #{} (length {}) and what follows is not read back ({} of {} acknowledged records returned)", mode, k, ai, a.0, got.len(), acked.len());
+                            }
+                            break;
+                        }
+                        gi += 1;
+                    }
+                }
+            }
+            println!("runs={}", runs);
+            println!("lost={}", lost);
+            println!("first_lost={}", first);
+        }
         "sched_iter_during_flush" => {
             // an iterator is created while the flush writes its table file: the key lives only in the immutable memtable
             use raindb::{RainDbIterator, ReadOptions, WriteOptions};
